@@ -14,6 +14,8 @@ import (
 	"encoding/hex"
 	"fmt"
 	"math/rand"
+	"os"
+	"os/exec"
 	"runtime"
 	"strings"
 	"time"
@@ -45,6 +47,7 @@ import (
 const baseHeader = "From CSS Require Import Lib.Base Lib.Cases Model.EventLog Model.EventLogAlign Model.EventLogAlignCases."
 
 const (
+	findUnhash = "C13-unhash-concurrent-found-digests"
 	findD20    = "C13-D20-rangesToChunks-index"
 	findNilM   = "C13-nil-measurement-deref"
 	findRange  = "C13-range-beyond-image"
@@ -291,6 +294,12 @@ func buildBoots() []*boot {
 		var evs []string
 		for ei := range tp.EventLog {
 			evs = append(evs, simLit(ei, &tp.EventLog[ei]))
+			if mi := b.measurementOfEvent(ei); mi >= 0 {
+				gal.Recover(func() {
+					noteFindable(tp.EventLog[ei].HashAlgo, s.MeasuredData[mi].ConvertedBytes())
+					noteFindable(tp.EventLog[ei].HashAlgo, s.MeasuredData[mi].RawBytes())
+				})
+			}
 		}
 		b.def = fmt.Sprintf("Definition %s : boot := mkBoot %d %s\n  %s\n  %s.", b.coq, b.isz, gal.Bool(b.regs), gal.List(cmds), gal.List(evs))
 		out = append(out, b)
@@ -670,13 +679,16 @@ func (g *genCtx) randDigest() []byte {
 	case 0: // zeros
 	case 1: // digest of a piece of the image: the explainer finds it
 		off := g.rng.Intn(len(firmware.FakeIntelFirmware) - 600)
-		if h := hashOf(g.alg, firmware.FakeIntelFirmware[off:off+16+g.rng.Intn(500)]); h != nil {
+		piece := firmware.FakeIntelFirmware[off : off+16+g.rng.Intn(500)]
+		if h := hashOf(g.alg, piece); h != nil {
 			d = h
+			noteFindable(g.alg, piece)
 		}
 	case 2: // digest of a hash-sized piece of the image (follow-up search of the explainer)
 		off := g.rng.Intn(len(firmware.FakeIntelFirmware) - 64)
 		if h := hashOf(g.alg, firmware.FakeIntelFirmware[off:off+n]); h != nil {
 			d = h
+			noteFindable(g.alg, firmware.FakeIntelFirmware[off:off+n])
 		}
 	default:
 		g.rng.Read(d)
@@ -1104,10 +1116,22 @@ func doCase(c *gal.Ctx, kind string, g *genCtx, nilLog bool) {
 	if !nilLog {
 		log = &tpmeventlog.TPMEventLog{Events: g.evs}
 	}
+	// --- who will be paired with whom (search hook), asked BEFORE the call: entries left unexplained go to the
+	// digest search of the explainer, which dies in a goroutine when two of its workers find digests at the same
+	// time (finding C13-unhash-concurrent-found-digests; a child process shows it, see probeUnhash).  A log whose
+	// unexplained digests can be found in two or more places of the image is run with a guess limit of 1..2
+	// (at most one candidate is then compared), every other log with the limit drawn for it.
+	preDe, preDc, havePre := g.preAlign(nilLog)
+	if !nilLog && !b.simErr(g.alg) && hashSize(g.alg) >= 0 && g.searchRisk(preDe, preDc, havePre) >= 2 {
+		g.st.MaxDigestRangeGuesses = uint64(1 + g.rng.Intn(2))
+		g.ops = append(g.ops, fmt.Sprintf("digest search limited to %d guess(es): the unexplained digests are found in two or more places of the image (%s)", g.st.MaxDigestRangeGuesses, findUnhash))
+	}
+	c.Begin("ReproduceEventLog kills the process (panic in a goroutine of its own)", "pkg/bootflow/subsystems/trustchains/tpm/pcrbruteforcer/reproduce_event_log.go",
+		map[string]interface{}{"kind": kind, "boot": b.name, "alg": fmt.Sprint(g.alg), "settings": g.st, "gomaxprocs": g.P, "edit_ops": g.ops, "recorded_log": describeEvents(g.evs)})
 	o := runRepro(b, log, g.alg, g.st, g.P)
 	nCase++
 
-	// --- the disable bitmaps: read off the result, or ask the search hook
+	// --- the disable bitmaps: read off the result, or the ones of the search hook
 	var exp []*tpmeventlog.Event
 	for _, e := range g.evs {
 		if selected(e, g.alg) {
@@ -1140,28 +1164,10 @@ func doCase(c *gal.Ctx, kind string, g *genCtx, nilLog bool) {
 				}
 			}
 		}
-	} else if !nilLog && !b.simErr(g.alg) && hashSize(g.alg) >= 0 {
-		okLen := true
-		for _, e := range exp {
-			if len(e.Digest.Digest) != hashSize(g.alg) {
-				okLen = false
-			}
-		}
-		if okLen {
-			var calc []*tpm.EventLogEntry
-			var digs []tpm.Digest
-			for _, i := range sims {
-				calc = append(calc, &b.tp.EventLog[i])
-				digs = append(digs, b.tp.EventLog[i].Digest)
-			}
-			st := g.st
-			gal.Recover(func() {
-				e2, c2, _, _ := pcrbruteforcer.VerifBruteForceAlignedEventLogs(&st, calc, exp, digs)
-				copy(de, e2)
-				copy(dc, c2)
-				haveBitmaps = true
-			})
-		}
+	} else if havePre {
+		copy(de, preDe)
+		copy(dc, preDc)
+		haveBitmaps = true
 	}
 	_ = haveBitmaps
 
@@ -1494,6 +1500,99 @@ func doCase(c *gal.Ctx, kind string, g *genCtx, nilLog bool) {
 	c.OracleOK()
 }
 
+// the alignment the search hook finds for the recorded log (when the call gets that far)
+func (g *genCtx) preAlign(nilLog bool) (de, dc []bool, ok bool) {
+	b := g.b
+	if nilLog || b.simErr(g.alg) || hashSize(g.alg) < 0 {
+		return nil, nil, false
+	}
+	var exp []*tpmeventlog.Event
+	for _, e := range g.evs {
+		if selected(e, g.alg) {
+			if len(e.Digest.Digest) != hashSize(g.alg) {
+				return nil, nil, false
+			}
+			exp = append(exp, e)
+		}
+	}
+	var calc []*tpm.EventLogEntry
+	var digs []tpm.Digest
+	for _, i := range b.simIdx(g.alg) {
+		calc = append(calc, &b.tp.EventLog[i])
+		digs = append(digs, b.tp.EventLog[i].Digest)
+	}
+	st := g.st
+	gal.Recover(func() {
+		e2, c2, _, err := pcrbruteforcer.VerifBruteForceAlignedEventLogs(&st, calc, exp, digs)
+		if err == nil && len(e2) == len(exp) && len(c2) == len(calc) {
+			de, dc, ok = e2, c2, true
+		}
+	})
+	return
+}
+
+// in how many places of the image the digests that will be left unexplained (entries left unpaired, or paired with
+// another digest) can be found; without an alignment every entry counts
+func (g *genCtx) searchRisk(de, dc []bool, have bool) int {
+	var exp []*tpmeventlog.Event
+	for _, e := range g.evs {
+		if selected(e, g.alg) {
+			exp = append(exp, e)
+		}
+	}
+	sims := g.b.simIdx(g.alg)
+	risk := 0
+	add := func(e *tpmeventlog.Event) { risk += findable[string(e.Digest.Digest)] }
+	if !have {
+		for _, e := range exp {
+			add(e)
+		}
+		return risk
+	}
+	i, j := 0, 0
+	for i < len(exp) {
+		switch {
+		case j < len(sims) && dc[j]:
+			j++
+		case de[i] || j >= len(sims):
+			add(exp[i])
+			i++
+		default:
+			if !bytes.Equal(exp[i].Digest.Digest, g.b.tp.EventLog[sims[j]].Digest) {
+				add(exp[i])
+			}
+			i++
+			j++
+		}
+	}
+	return risk
+}
+
+// digest -> number of places of the image that hold its preimage (2 stands for two or more); digests whose
+// preimage the generator does not know (random, bit-flipped, PCR0_DATA) are found nowhere
+var findable = map[string]int{}
+
+func noteFindable(alg tpm2.Algorithm, pre []byte) {
+	d := hashOf(alg, pre)
+	if d == nil || len(pre) == 0 {
+		return
+	}
+	if _, done := findable[string(d)]; done {
+		return
+	}
+	n := 0
+	img := firmware.FakeIntelFirmware
+	for off := 0; n < 2 && off+len(pre) <= len(img); {
+		k := bytes.Index(img[off:], pre)
+		if k < 0 {
+			break
+		}
+		n++
+		off += k + 1
+	}
+	findable[string(d)] = n
+}
+
 // the recorded entry re-digested with the wanted register
 func (g *genCtx) findWanted() int {
 	if g.want == nil {
@@ -1629,6 +1728,10 @@ func searchCase(c *gal.Ctx, b *boot, alg tpm2.Algorithm, exp []*tpmeventlog.Even
 
 func main() {
 	boots := buildBoots()
+	if os.Getenv(unhashProbeEnv) != "" {
+		unhashWitness(boots[0])
+		return
+	}
 	header := baseHeader
 	for _, b := range boots {
 		header += "\n" + b.def
@@ -1638,6 +1741,8 @@ func main() {
 	good := boots[:4]
 	twoPCR0 := boots[4]
 	badBoot := boots[5]
+	multiRef := boots[6]
+	refBoots := append(append([]*boot{}, good...), multiRef)
 
 	// ---- probes of the known findings (fixed witnesses)
 	probeD20(c, boots[0])
@@ -1739,7 +1844,7 @@ func main() {
 
 	// ---- event data with (offset,length) pairs on a mismatching / unexpected entry
 	for k := 0; k < c.Scale(160, 1200); k++ {
-		b := good[c.Rng.Intn(len(good))]
+		b := refBoots[c.Rng.Intn(len(refBoots))]
 		alg := algs[c.Rng.Intn(2)]
 		g := newGen(c, b, alg)
 		pos := bankPos(g.evs, alg)
@@ -1762,9 +1867,56 @@ func main() {
 		doCase(c, "event-data", g, false)
 	}
 
+	// ---- lists of (length, offset) pairs on an entry that is only re-digested, so that it stays paired with its
+	// simulated event and measurement (one, two, three references; image ranges and hard-coded values): every list
+	// of empty / real pairs up to three (thorough: four) pairs on every simulated entry, then longer random lists
+	parserTypes := []tpmeventlog.EventType{evPostCode, evBlob2}
+	pairCase := func(b *boot, alg tpm2.Algorithm, si int, kinds, descr string, kind string) {
+		g := newGen(c, b, alg)
+		e := g.evs[si] // recFromSim keeps the indexes of the simulated log
+		e.Data = pairListData(c.Rng, b.isz, kinds, descr)
+		what := "same type"
+		if !hasParser(e.Type) {
+			// a type whose event data is read; with no entry to spare for the alignment the two stay paired
+			e.Type = parserTypes[c.Rng.Intn(2)]
+			g.st.DisabledEventsMaxDistance = 0
+			what = fmt.Sprintf("retyped to %#x, DisabledEventsMaxDistance 0", uint32(e.Type))
+		}
+		e.Digest.Digest[c.Rng.Intn(len(e.Digest.Digest))] ^= 1 << uint(c.Rng.Intn(8))
+		g.ops = []string{fmt.Sprintf("entry %d re-digested (%s), event data = pair list %q after description %q (E empty, R real, S/Z stored offset first, X ends at the image end, P reaches past it; the last pair of the data is read first)", si, what, kinds, descr)}
+		doCase(c, kind, g, false)
+	}
+	lists := allKinds(c.Scale(3, 4))
+	for _, b := range refBoots {
+		for ai, alg := range algs {
+			for pos, si := range b.simIdx(alg) {
+				noMeas := b.measurementOfEvent(si) < 0
+				for ki, kinds := range lists {
+					if !c.Thorough() && (pos+ki+ai)%2 != 0 {
+						continue
+					}
+					if noMeas && ki > 3 { // an event that was only logged has no references to count: a few lists do
+						continue
+					}
+					pairCase(b, alg, si, kinds, "", "pair-list")
+				}
+			}
+		}
+	}
+	for k := 0; k < c.Scale(80, 800); k++ {
+		b := refBoots[c.Rng.Intn(len(refBoots))]
+		alg := algs[c.Rng.Intn(2)]
+		sims := b.simIdx(alg)
+		descr := ""
+		if k%4 == 0 {
+			descr = []string{"FV_BB", "FV_MAIN_COMPACT", "Fv(4F1C52D3-D824-4D2A-A2F0-EC40C23C5916)"}[c.Rng.Intn(3)]
+		}
+		pairCase(b, alg, sims[c.Rng.Intn(len(sims))], randKinds(c.Rng, 6), descr, "pair-list-random")
+	}
+
 	// ---- random edit scripts of 1..4 operations
 	for k := 0; k < c.Scale(700, 6000); k++ {
-		b := good[c.Rng.Intn(len(good))]
+		b := refBoots[c.Rng.Intn(len(refBoots))]
 		if c.Rng.Intn(40) == 0 {
 			b = badBoot
 		}
@@ -1940,4 +2092,67 @@ func probeRange(c *gal.Ctx, b *boot) {
 		"ReproduceEventLog on the simulated log whose firmware-blob entry got a wrong digest and one (length,offset) pair reaching 16 bytes past the image end: "+o.Outcome+" "+o.Msg)
 	g.ops = []string{"probe: firmware-blob entry re-digested, pair (0x20 bytes at 0xfffffff0)"}
 	doCase(c, "probe-range", g, false)
+}
+
+// ---------------------------------------------------------------- the digest search of the explainer (finding C13-unhash-concurrent-found-digests)
+
+// The witness of the finding panics in a goroutine of the search, which cannot be recovered and kills the process:
+// it runs in a child process (this binary with the variable set).
+const unhashProbeEnv = "C13_UNHASH_WITNESS"
+const unhashWitnessTime = 6 * time.Second
+
+// recorded log = simulated log with a second copy of the EV_SEPARATOR entry (digest of four zero bytes, which the
+// image holds in many places), default guess limit
+func unhashWitnessLog(b *boot) []*tpmeventlog.Event {
+	evs := recFromSim(b)
+	for i, e := range evs {
+		if e.Type == tpmeventlog.EV_SEPARATOR && selected(e, tpm2.AlgSHA1) {
+			evs = append(evs[:i+1], append([]*tpmeventlog.Event{cloneEvent(e)}, evs[i+1:]...)...)
+			break
+		}
+	}
+	return evs
+}
+
+func unhashWitness(b *boot) {
+	st := pcrbruteforcer.DefaultSettingsReproduceEventLog()
+	st.MaxDigestRangeGuesses = 2000000
+	t0 := time.Now()
+	k := 0
+	for ; time.Since(t0) < unhashWitnessTime; k++ {
+		evs := unhashWitnessLog(b)
+		pcrbruteforcer.ReproduceEventLog(context.Background(), b.proc, &tpmeventlog.TPMEventLog{Events: evs}, tpm2.AlgSHA1, st)
+	}
+	fmt.Println("witness: no crash in", k, "calls")
+}
+
+func probeUnhash(c *gal.Ctx) {
+	exe, err := os.Executable()
+	if err != nil {
+		return
+	}
+	cmd := exec.Command(exe)
+	cmd.Env = append(os.Environ(), unhashProbeEnv+"=1")
+	done := make(chan struct{})
+	var out []byte
+	go func() { out, _ = cmd.CombinedOutput(); close(done) }()
+	select {
+	case <-done:
+	case <-time.After(40 * time.Second):
+		if cmd.Process != nil {
+			cmd.Process.Kill()
+		}
+		<-done
+	}
+	s := string(out)
+	crashed := strings.Contains(s, "unhash.FindDigestSourceAllDigests") && strings.Contains(s, "panic: runtime error: index out of range")
+	msg := ""
+	if i := strings.Index(s, "panic: "); i >= 0 {
+		msg = s[i:]
+		if j := strings.Index(msg, "\n"); j >= 0 {
+			msg = msg[:j]
+		}
+	}
+	c.Probe(findUnhash, crashed, "child process: ReproduceEventLog (SHA1, default settings, 2000000 guesses) on the simulated log with a second copy of the EV_SEPARATOR entry, up to 20 times: "+
+		map[bool]string{true: "the process died in a goroutine of the digest search: " + msg, false: "no crash this time"}[crashed])
 }
